@@ -1005,6 +1005,65 @@ static void deepskip_eval(uint64_t idx, void *ctx) {
     aws_cbor_encoder_destroy(enc);
 }
 
+/* ---- section lives: an encoder's second life, and decoding with a stale error on the thread ----
+ * first life: F bytes of text items, then aws_cbor_encoder_reset; second life: an array of N 100-byte texts, decoded again and
+ * compared - whatever the first life did to the buffer's capacity, the second life's items are all there (added after a seeded
+ * change whose reset shrank the storage but kept the old capacity).  The decode runs with the thread's last error set to
+ * nothing / OVERFLOW_DETECTED / OOM / INVALID_INDEX, left there by unrelated earlier failures: a well-formed document decodes
+ * whatever that value is (added after a seeded change that consulted aws_last_error() after a successful libcbor call). */
+static uint64_t lives_total(void) { return 4 * 4 * 4 * 3; }
+static void lives_eval(uint64_t idx, void *ctx) {
+    (void)ctx;
+    BEE_ITEM(idx);
+    uint64_t x = idx;
+    static const size_t FIRST[4] = {0, 300, 5000, 70000};
+    static const unsigned SECOND[4] = {1, 3, 30, 50};
+    static const int AMB[4] = {0, AWS_ERROR_OVERFLOW_DETECTED, AWS_ERROR_OOM, AWS_ERROR_INVALID_INDEX};
+    size_t first = FIRST[bee_digit(&x, 4)];
+    unsigned n2 = SECOND[bee_digit(&x, 4)];
+    int amb = AMB[bee_digit(&x, 4)];
+    unsigned which = bee_digit(&x, 3);
+    struct aws_allocator *al = which == 0 ? aws_default_allocator() : which == 1 ? bee_min_allocator() : bee_moving_allocator();
+    V_COUNT("evaluations", 1);
+    V_COUNT("nontrivial", 1);
+    struct aws_cbor_encoder *enc = aws_cbor_encoder_new(al);
+    char chunk[100];
+    memset(chunk, 'f', sizeof(chunk));
+    for (size_t w = 0; w < first; w += sizeof(chunk)) aws_cbor_encoder_write_text(enc, aws_byte_cursor_from_array(chunk, sizeof(chunk)));
+    aws_cbor_encoder_reset(enc);
+    BEE_CHECK(aws_cbor_encoder_get_encoded_data(enc).len == 0, "enc-reset", "%zu bytes after aws_cbor_encoder_reset", aws_cbor_encoder_get_encoded_data(enc).len);
+    aws_cbor_encoder_write_array_start(enc, n2);
+    for (unsigned i = 0; i < n2; ++i) {
+        memset(chunk, 'a' + (int)(i % 26), sizeof(chunk));
+        aws_cbor_encoder_write_text(enc, aws_byte_cursor_from_array(chunk, sizeof(chunk)));
+    }
+    struct aws_byte_cursor out = aws_cbor_encoder_get_encoded_data(enc);
+    uint8_t *copy = bee_block(out.ptr, out.len);
+    size_t copy_len = out.len;
+    aws_reset_error();
+    if (amb) aws_raise_error(amb);
+    struct aws_cbor_decoder *dec = aws_cbor_decoder_new(aws_default_allocator(), aws_byte_cursor_from_array(copy, copy_len));
+    uint64_t cnt = 0;
+    int rc = aws_cbor_decoder_pop_next_array_start(dec, &cnt);
+    BEE_CHECK(rc == AWS_OP_SUCCESS && cnt == n2, "dec-second-life", "second life of an encoder (first life %zu bytes, stale error %d on the decoding thread): array start gives rc %d (error %d), %" PRIu64 " items, written %u", first,
+              amb, rc, rc ? aws_last_error() : 0, cnt, n2);
+    for (unsigned i = 0; i < n2 && rc == AWS_OP_SUCCESS && !v_sh->viol_count; ++i) {
+        struct aws_byte_cursor t;
+        AWS_ZERO_STRUCT(t);
+        if (amb) aws_raise_error(amb);
+        rc = aws_cbor_decoder_pop_next_text_val(dec, &t);
+        int same = rc == AWS_OP_SUCCESS && t.len == sizeof(chunk);
+        for (size_t k = 0; same && k < t.len; ++k) same = t.ptr[k] == (uint8_t)('a' + (int)(i % 26));
+        BEE_CHECK(same, "dec-second-life", "second life of an encoder (first life %zu bytes, stale error %d): text item %u of %u decodes with rc %d (error %d), %zu bytes%s", first, amb, i, n2, rc,
+                  rc ? aws_last_error() : 0, t.len, rc == AWS_OP_SUCCESS ? ", wrong content" : "");
+    }
+    if (rc == AWS_OP_SUCCESS) BEE_CHECK(aws_cbor_decoder_get_remaining_length(dec) == 0, "dec-second-life", "%zu bytes left after the last item", aws_cbor_decoder_get_remaining_length(dec));
+    aws_cbor_decoder_destroy(dec);
+    aws_cbor_encoder_destroy(enc);
+    free(copy);
+    aws_reset_error();
+}
+
 /* the sections in which the encoder's buffer grows, once more with an allocator that has no realloc of its own */
 static void fill_min_eval(uint64_t idx, void *ctx) {
     A = bee_min_allocator();
@@ -1036,6 +1095,7 @@ int main(int argc, char **argv) {
     bee_register("fill", fill_total, fill_eval, 10);
     bee_register("fill-minalloc", fill_total, fill_min_eval, 10);
     bee_register("strings-minalloc", strings_total, strings_min_eval, 20);
+    bee_register("lives", lives_total, lives_eval, 20);
     bee_register("nest", nest_total, nest_eval, 10);
     bee_register("deepskip", deepskip_total, deepskip_eval, 60);
     return bee_main(argc, argv);
